@@ -32,6 +32,8 @@ PAIR_QUICK = ["AMP-binding", "PKS_AT", "Condensation_LCL", "PKS_KS", "PKS_KS/Tra
 PAIR_THOROUGH = PAIR_QUICK + ["Interface", "CAL_domain", "NRPS-COM_Nterm"]
 CORE5 = ["AMP-binding", "PKS_AT", "Condensation_LCL", "PKS_KS", "PKS_KS/Trans-AT-KS", "PKS_KR", "ACP", "Thioesterase",
          "Trans-AT_docking", "LPG_synthase_C", "Beta_elim_lyase", "CAL_domain", "NRPS-COM_Nterm", "Epimerization"]
+# the double-transporter case needs 4-5 domains: a small alphabet, longer strings
+TRANSPORTER = ["PKS_KS/Trans-AT-KS", "ACP", "LPG_synthase_C", "Beta_elim_lyase", "PKS_KR"]
 KS_SUBTYPES = ["", "", "Trans-AT-KS", "Trans-AT-KS", "Iterative-KS", "Modular-KS", "Hybrid-KS", "Enediyne-KS"]
 STRANDS = [(1, 1), (-1, -1), (1, -1), (-1, 1)]
 
@@ -259,16 +261,23 @@ def _doms(indices):
     return [list(ALPHABET[idx - 1]) for idx in indices]
 
 
-def _cases_from_dump(run):
-    cases = []
+def _compact_from_dump(run):
+    """ states of the generator as (upstream index tuple, downstream index tuple | None) """
+    found = []
     for state in tlaval.read_dump(run.dump_path):
-        if state["phase"] == 0:
-            cases.append({"input": {"kind": "gene", "doms": _doms(state["a"])}})
-        else:
-            cases.append({"input": {"kind": "pair", "up": _doms(state["a"]), "down": _doms(state["b"]),
-                                    "strands": [list(s) for s in STRANDS]}})
-    cases.sort(key=lambda case: json.dumps(case["input"], sort_keys=True))
-    return cases
+        found.append((tuple(state["a"]), tuple(state["b"]) if state["phase"] == 1 else None))
+    found.sort(key=lambda item: (item[1] is not None, len(item[0]), len(item[1] or ()), item))
+    return found
+
+
+def _expand(ident, item) -> dict:
+    if isinstance(item, dict):
+        return dict(item, id=ident)
+    first, second = item
+    if second is None:
+        return {"id": ident, "input": {"kind": "gene", "doms": _doms(first)}}
+    return {"id": ident, "input": {"kind": "pair", "up": _doms(first), "down": _doms(second),
+                                   "strands": [list(s) for s in STRANDS]}}
 
 
 def _all_labels():
@@ -355,24 +364,23 @@ def _negative_controls(ctx):
               vacuity=["AddSingle", "StartPair", "AddDown"])
 
 
-def _actions_witnessed(cases, params):
+def _actions_witnessed(found, params):
     """ the generator run is made without coverage (4x faster); that every action fired is read off its states """
-    genes = [c["input"] for c in cases if c["input"]["kind"] == "gene"]
-    pairs = [c["input"] for c in cases if c["input"]["kind"] == "pair"]
-    seen = {"AddSingle": any(len(g["doms"]) == params["maxlen"] for g in genes),
-            "StartPair": any(len(p["down"]) == 1 and len(p["up"]) == params["maxup"] for p in pairs),
-            "AddDown": any(len(p["down"]) == params["maxdown"] for p in pairs)}
+    seen = {"AddSingle": any(b is None and len(a) == params["maxlen"] for a, b in found),
+            "StartPair": any(b is not None and len(b) == 1 and len(a) == params["maxup"] for a, b in found),
+            "AddDown": any(b is not None and len(b) == params["maxdown"] for a, b in found)}
     missing = sorted(name for name, hit in seen.items() if not hit)
     if missing:
         raise MachineryError(f"vacuous generator run: no state produced by {missing}")
 
 
-def _validate_batches(ctx, cases, batch_size):
-    """ observe + validate in batches so that thorough runs stay within memory """
+def _validate_batches(ctx, items, batch_size):
+    """ expand + observe + validate in batches so that thorough runs stay within memory """
     samples = []
     timing = ctx.notes.setdefault("timing_s", {})
-    for start in range(0, len(cases), batch_size):
-        batch = cases[start:start + batch_size]
+    for start in range(0, len(items), batch_size):
+        batch = [_expand(start + offset, item) for offset, item in enumerate(items[start:start + batch_size])]
+        ctx.nontrivial_extra += sum(1 for case in batch if _nontrivial(case["input"]))
         mark = ctx.timer.elapsed()
         events = [ev for part in pmap(_observe_many, chunks(batch, CPUS * 4)) for ev in part]
         timing["observe"] = round(timing.get("observe", 0) + ctx.timer.elapsed() - mark, 1)
@@ -393,6 +401,9 @@ def run(ctx):
     if ctx.quick:
         runs = [("all strings <= 3 over the 25-label alphabet; pairs up <= 2 x down <= 3 over 9 labels",
                  {"single": _indices(everything), "pair": _indices(PAIR_QUICK), "maxlen": 3, "maxup": 2, "maxdown": 3,
+                  "variant": "ok"}),
+                ("all strings <= 5 and pairs up <= 1 x down <= 4 over 5 labels around the double-transporter case",
+                 {"single": _indices(TRANSPORTER), "pair": _indices(TRANSPORTER), "maxlen": 5, "maxup": 1, "maxdown": 4,
                   "variant": "ok"})]
         randoms = 3000
     else:
@@ -401,6 +412,9 @@ def run(ctx):
                   "variant": "ok"}),
                 ("all strings <= 5 over 14 core labels; pairs up <= 3 x down <= 3 over 9 labels",
                  {"single": _indices(CORE5), "pair": _indices(PAIR_QUICK), "maxlen": 5, "maxup": 3, "maxdown": 3,
+                  "variant": "ok"}),
+                ("all strings <= 7 and pairs up <= 2 x down <= 5 over 5 labels around the double-transporter case",
+                 {"single": _indices(TRANSPORTER), "pair": _indices(TRANSPORTER), "maxlen": 7, "maxup": 2, "maxdown": 5,
                   "variant": "ok"})]
         randoms = 150000
     timing = ctx.notes.setdefault("timing_s", {})
@@ -415,23 +429,19 @@ def run(ctx):
         timing[f"model_run_{idx}"] = round(ctx.timer.elapsed() - mark, 1)
         mark = ctx.timer.elapsed()
         ctx.model(mc, f"NrpsModules_MC {label}")
-        found = _cases_from_dump(mc)
+        found = _compact_from_dump(mc)
         if len(found) != mc.distinct:
             raise MachineryError(f"dump holds {len(found)} states, TLC reported {mc.distinct}")
         _actions_witnessed(found, params)
-        for case in found:
-            key = json.dumps(case["input"], sort_keys=True)
-            if key not in seen:
-                seen.add(key)
-                cases.append(case)
+        for item in found:
+            if item not in seen:
+                seen.add(item)
+                cases.append(item)
         ctx.notes.setdefault("generated_cases", {})[label] = len(found)
         timing[f"read_dump_{idx}"] = round(ctx.timer.elapsed() - mark, 1)
     exhaustive = len(cases)
+    del seen
     cases += _random_cases(rng, randoms)
-    for idx, case in enumerate(cases):
-        case["id"] = idx
-        if _nontrivial(case["input"]):
-            ctx.nontrivial_case(idx)
     ctx.evaluations = len(cases)
     for sample in _validate_batches(ctx, cases, 150000):
         ctx.sample(sample)
